@@ -110,9 +110,21 @@ Lemma lower_sol : forall l, lower (string_of_list l) = string_of_list (map to_lo
 Proof. induction l as [|c l IH]; [reflexivity|]. unfold lower in *. simpl. rewrite IH. reflexivity. Qed.
 
 (* ---- join with the empty separator *)
+Lemma sapp_nil_r : forall s : string, (s ++ "")%string = s.
+Proof. induction s as [|c s IH]; simpl; [reflexivity | rewrite IH; reflexivity]. Qed.
+Lemma sapp_assoc : forall a b c : string, ((a ++ b) ++ c)%string = (a ++ (b ++ c))%string.
+Proof. induction a as [|x a IH]; simpl; intros; [reflexivity | rewrite IH; reflexivity]. Qed.
+
 Lemma join_empty_cons : forall x l, join "" (x :: l) = (x ++ join "" l)%string.
 Proof.
   intros x l. unfold join. destruct l as [|y l]; simpl.
-  - induction x; simpl; [reflexivity | rewrite IHx; reflexivity].
+  - rewrite sapp_nil_r. reflexivity.
   - reflexivity.
+Qed.
+
+Lemma join_empty_app : forall a b, join "" (a ++ b) = (join "" a ++ join "" b)%string.
+Proof.
+  induction a as [|x a IH]; intros b.
+  - reflexivity.
+  - rewrite <- app_comm_cons, !join_empty_cons, IH, sapp_assoc. reflexivity.
 Qed.
